@@ -325,6 +325,17 @@ final outcome. non-trivial = >= 2 requests, or the bound hit exactly, or a relat
             if req.target.contains('#') {
                 return Outcome::fail("C09:fragment-sent", format!("request target {:?}", req.target));
             }
+            // the request of every hop names the authority of that hop's URL
+            let want_host = u.to_uri().authority.unwrap();
+            match req.get_one("host") {
+                Ok(h) if h.eq_ignore_ascii_case(want_host.as_bytes()) => {}
+                other => {
+                    return Outcome::fail(
+                        "C09:hop-host-header",
+                        format!("request #{n} to {} carries Host {:?}", u.render(), other.map(|h| String::from_utf8_lossy(h).into_owned())),
+                    )
+                }
+            }
         }
         match (&expect, &res) {
             (Expect::Response { status, url }, Ok(resp)) => {
